@@ -611,6 +611,14 @@ def r9_defaults_deep_copied(ctx):
     ctx.floor("state built from a module-level table of defaults", n_sites, 1)
 
 
+
+def r10_no_default_table_edit(ctx):
+    """keyword arguments of one get_rater call must not leak into the
+    module-level defaults every later call starts from: shared with C09-R4"""
+    from .c09 import r4_seeded
+    r4_seeded(ctx)
+
+
 RULES = [
     ("C10-R1", "no in-place mutation of by-value arguments", r1_no_mutation),
     ("C10-R2", "no retention of caller objects by reference",
@@ -628,4 +636,6 @@ RULES = [
      "on every return path or on none", r8_uniform_result_ownership),
     ("C10-R9", "state built from a module-level table of defaults does not "
      "share the table's mutable entries", r9_defaults_deep_copied),
+    ("C10-R10", 'the effect of a call depends on its own arguments only: module-level hyper-parameter defaults are never edited',
+     r10_no_default_table_edit),
 ]
